@@ -394,17 +394,19 @@ func TestVerif_C10(t *testing.T) {
 			for i := range vs {
 				vs[i] = p.gen(i)
 			}
-			ords = append(ords, ordCase{fmt.Sprintf("n=%d pattern=%s", n, p.name), vs, n <= 300 || verifmc.Thorough()})
+			// thorough: every prefix also for the 16385-value lists of the two shortest patterns
+			all := n <= 300 || (verifmc.Thorough() && n == 16385 && (p.name == "all-empty" || p.name == "all-01"))
+			ords = append(ords, ordCase{fmt.Sprintf("n=%d pattern=%s", n, p.name), vs, all})
 		}
 	}
-	const edgeTrunc = 64 // quick tier, lists above 300 values: prefixes of length < 64 and > len-64
+	edgeTrunc := verifmc.Pick(64, 512) // lists above 300 values: prefixes shorter than edgeTrunc bytes and the last edgeTrunc ones
 
 	r.Rule = fmt.Sprintf("part A: every ordered list (with repetition) of length 0..%d over %d keys %v x 4 values {\"\", 01, 32 bytes, 33 bytes}%s "+
 		"(%d lists) is SCALE-encoded by the harness and passed to root_version_1 and to root_version_2 with every version 0..255; "+
 		"every proper prefix of every encoding is passed to root_version_1 and root_version_2 (versions 0, 1). "+
 		"part B: every value list of length 0..%d over the 4 values, and lists of length %v under 5 value patterns (all empty, all 01, u32le(i), "+
 		"(i mod 35) bytes, constant 33 bytes), are passed to ordered_root_version_1 and ordered_root_version_2 with every version 0..255; "+
-		"every proper prefix of the encodings (lists above 300 values in the quick tier: the prefixes shorter than %d bytes and the last %d) is passed with versions 0, 1. "+
+		"every proper prefix of the encodings (lists above 300 values: the prefixes shorter than %d bytes and the last %d; thorough tier: every prefix for the 16385-value all-empty and all-01 lists) is passed with versions 0, 1. "+
 		"Expected: reference root (later duplicate wins; ordered: key = compact(i)) read back from guest memory for versions 0/1, pointer 0 otherwise and for prefixes. "+
 		"A case is non-trivial when the list has at least two entries. Versions above 255 (%v) are executed but not judged.",
 		maxLen, len(keys), c10HexList(keys), extra, len(lists), smallMax, sizes, edgeTrunc, edgeTrunc, c10UnjudgedVersions)
